@@ -4,7 +4,7 @@ configuration endpoint (reply split at random).  Monitor: after construction and
 key of a corpus is served by an advertised node (by ip or host name, on the advertised port), none by a node that is no
 longer advertised, sockets to replaced nodes are closed, and an ERROR endpoint makes the call fail with a memcached
 error.  Correspondence: the Lean `Aws.discover` on the endpoint's reply bytes and `Aws.reconfigure` on the history."""
-from common import Ctx, hx, import_repo
+from common import FakeClock, Ctx, hx, import_repo
 from fakesock import FakeSocketModule, World
 from refserver import RefServer
 
@@ -172,7 +172,7 @@ def main(argv):
     clock = [1000.0]
     import pymemcache.client.ext.aws_ec_client as A
     real_time, real_time_a = H.time, A.time
-    H.time = A.time = type("T", (), {"time": staticmethod(lambda: clock[0])})
+    H.time = A.time = FakeClock(lambda: clock[0])
     try:
         for use_vpc in (True, False):
           for ra in (0, 1, 2):
